@@ -16,6 +16,7 @@ from .values import (NT, BoundMethod, BreakSig, Builtin, BuiltinClass, ContinueS
 ENTAIL_RLIMIT = 1_500_000
 FEAS_RLIMIT = 400_000     # small: an undecided feasibility query means 'explore the branch' (sound; verdicts come from discharge)
 SAFETY_TIMEOUT_MS = 60_000
+FULL_FEASIBILITY = False   # also ask the full (sequence-aware) solver about branch feasibility: slower, fewer paths
 MAX_DEPTH = 40
 MAX_UNROLL = 64
 
@@ -93,24 +94,39 @@ class Path:
             s.add(f)
         return s
 
+    def _abstract_solver(self, rlimit):
+        s = z3.Solver()
+        s.set("rlimit", rlimit)
+        facts = []
+        for f in self.pc:
+            a, fs = zu.arith_abstract(f)
+            s.add(a)
+            facts.extend(fs)
+        return s, facts
+
     def feasible(self, cond, keep_model=False):
-        # a fresh (non-incremental) solver per query: measured 3-6x faster than push/pop on sequence-heavy conditions
-        s = self._fresh_solver(FEAS_RLIMIT)
-        s.add(cond)
+        """Branch feasibility.  Decided on the arithmetic/boolean abstraction of the path condition: `unsat` there is
+        sound infeasibility; anything else means 'explore the branch' (verdicts only ever come from discharge())."""
+        s, facts = self._abstract_solver(FEAS_RLIMIT)
+        a, fs = zu.arith_abstract(cond)
+        s.add(a)
+        for f in facts + fs:
+            s.add(f)
         self.feas_checks += 1
         r = s.check()
-        m = None
-        if r == z3.sat and keep_model:
-            try:
-                m = s.model()
-            except z3.Z3Exception:
-                m = None
         if keep_model:
-            self._last_model = m
-        if r == z3.unknown:
-            self.uncertain = True
-            return True
-        return r == z3.sat
+            self._last_model = None
+        if r == z3.unsat:
+            return False
+        if FULL_FEASIBILITY:
+            s2 = self._fresh_solver(FEAS_RLIMIT)
+            s2.add(cond)
+            r2 = s2.check()
+            if r2 == z3.unsat:
+                return False
+            if r2 == z3.unknown:
+                self.uncertain = True
+        return True
 
     def _occurs(self, const):
         name = const.decl().name()
